@@ -205,6 +205,14 @@ def catalogue(ops, sp, cls):
     for i, p in enumerate(params):
         out.append(("set_initial_on_parameter", "param#%d" % (i + 1), "add", {"op": "set_initial", "x": p, "g": ["num", 1.0]}))
     out.append(("set_initial_unknown", "-", "add", {"op": "set_initial", "x": "?q", "g": ["num", 1.0]}))
+    # the unknown symbol hidden in a concatenation with a known one, either order
+    out.append(("set_initial_unknown", "vertcat(known,unknown)", "add", {"op": "set_initial_cat", "xs": [x0, "?q"], "g": ["num", 1.0]}))
+    out.append(("set_initial_unknown", "vertcat(unknown,known)", "add", {"op": "set_initial_cat", "xs": ["?q", xl], "g": ["num", 1.0]}))
+    for i, p in enumerate(params[:1]):
+        out.append(("set_initial_on_parameter", "vertcat(state,param#%d)" % (i + 1), "add", {"op": "set_initial_cat", "xs": [x0, p], "g": ["num", 1.0]}))
+    # values for things that are no parameters: horizon symbols and other placeholders
+    for nm, e in (("T", ["T"]), ("t0", ["t0"]), ("t", ["t"]), ("at_tf(state)", ["at_tf", ["i", xl, 0]]), ("integral", ["int", ["sq", ["i", x0, 0]]])):
+        out.append(("set_value_on_placeholder", nm, "add", {"op": "set_value_expr", "expr": e, "v": 1.0}))
     out.append(("foreign_in_constraint", "path", "add", {"op": "subject_to", "expr": ["<=", ["i", x0, 0], ["s", "?f"]]}))
     out.append(("foreign_in_constraint", "boundary", "add", {"op": "subject_to", "expr": ["<=", ["at_tf", ["i", xl, 0]], ["s", "?f"]]}))
     out.append(("foreign_in_objective", "-", "add", {"op": "add_objective", "expr": ["*", ["s", "?f"], ["at_tf", ["i", x0, 0]]]}))
